@@ -252,7 +252,7 @@ def main(argv: list[str]) -> int:
 
         n_runs = args.runs if args.runs is not None else machine.runs[tier]
         jobs = args.jobs or min(16, os.cpu_count() or 1)
-        budget = args.budget or {"quick": 150.0, "thorough": 3600.0}[tier]
+        budget = args.budget or getattr(machine, "budget", {}).get(tier) or {"quick": 150.0, "thorough": 3600.0}[tier]
         seeds = [derive(base_seed, prop, i) % (2**53) for i in range(n_runs)]
         keep_first = 3
         items = [(i, s, i < keep_first) for i, s in enumerate(seeds)]
